@@ -377,11 +377,22 @@ def r5_continuation(ctx, rep):
                 ok = ok or (strips and nonempty and split)
     rep.ob("`;` fragments are stripped and empty ones dropped", ok, "", py.nloc(fn))
     # a line that starts with ! while a literal is open is a comment line (literal text continues at a line starting with &)
+    # (the open-literal flag is found by role: what the comment matchers receive as their open-literal argument)
+    md = py.func("reader._match_docmark")
+    flags = {ast.unparse(c.args[2]) for c in py.walk_calls(fn) if call_name(c).split(".")[-1] == md.name and len(c.args) >= 3}
+    scanners = {call_name(v).split(".")[-1] for f_ in flags for _t, v in astq.assignments(fn, f_) if isinstance(v, ast.Call)}
+
+    def skip_atom(x):
+        if isinstance(x, ast.Name) and x.id in flags:
+            return ("open", True)
+        if isinstance(x, ast.Call) and call_name(x).split(".")[-1] in scanners:
+            return ("open", True)
+        if isinstance(x, (ast.Compare, ast.Call)) and (astq.tests_first_char(x, V, "!") or re.search(
+                r"\.(l?strip)\(\)(\[:1\]|\[0\]) == '!'|\.l?strip\(\)\.startswith\('!'\)", ast.unparse(x))):
+            return ("bang", not (isinstance(x, ast.Compare) and isinstance(x.ops[0], ast.NotEq)))
+        return None
     skips = [e for e in ev if e.kind == "jump" and isinstance(e.node, ast.Continue) and
-             any(c == "in_quote" or c.startswith("in_quote and") for c in e.cond_texts()) and
-             any(isinstance(t, ast.AST) and pol and any(astq.tests_first_char(x, V, "!") or re.search(
-                 r"\.(l?strip)\(\)(\[:1\]|\[0\]) == '!'|\.l?strip\(\)\.startswith\('!'\)", ast.unparse(x)) for x in [t])
-                 for t, pol, _ in e.conds)]
+             astq.path_implies(e, skip_atom, {"open": True, "bang": True}) is True]
     rep.ob("comment lines between the lines of a continued literal are skipped", bool(skips),
            "a line starting with ! inside an open literal is dropped before it can be taken for code" if skips else
            "while a literal is open, comment recognition is off and nothing skips a line that starts with `!`: a comment line "
